@@ -141,7 +141,7 @@ for
 where
     Traits: ?Sized + Trait, 
     M: MemBuilder,
-    IterItem: IteratorItem<'a, AnyVecPtr<Traits, M>>,
+    IterItem: IteratorItem<'a, AnyVecPtr<Traits, M>> + Send,
     AnyVec<Traits, M>: Send
 {}
 #[allow(renamed_and_removed_lints, suspicious_auto_trait_impls)]
@@ -160,7 +160,7 @@ for
 where
     Traits: ?Sized + Trait, 
     M: MemBuilder, 
-    IterItem: IteratorItem<'a, AnyVecPtr<Traits, M>>,    
+    IterItem: IteratorItem<'a, AnyVecPtr<Traits, M>> + Sync,
     AnyVec<Traits, M>: Sync
 {}
 unsafe impl<'a, T, M, IterItem> Sync
@@ -194,14 +194,14 @@ impl<'a, AnyVecPtr: IAnyVecRawPtr> IteratorItem<'a, AnyVecPtr> for ElementIterIt
 
 /// Ref
 pub struct ElementRefIterItem<'a, Traits: ?Sized + Trait, M: MemBuilder>(
-    pub(crate) PhantomData<ElementPointer<'a, AnyVecPtr<Traits, M>>>
+    pub(crate) PhantomData<ElementRef<'a, Traits, M>>
 );
 impl<'a, Traits: ?Sized + Trait, M: MemBuilder> IteratorItem<'a, AnyVecPtr<Traits, M>> for ElementRefIterItem<'a, Traits, M>{
     type Item = ElementRef<'a, Traits, M>;
 
     #[inline]
     fn element_to_item(element: ElementPointer<'a, AnyVecPtr<Traits, M>>) -> Self::Item {
-        ElementRef(ManuallyDrop::new(element))
+        ElementRef(ManuallyDrop::new(element), PhantomData)
     }
 }
 impl<'a, Traits: ?Sized + Trait, M: MemBuilder> Clone for ElementRefIterItem<'a, Traits, M>{
